@@ -283,6 +283,40 @@ def fam_ws(k, alphabet):
   return Family(f"F-ws[{k} nodes]", prod.n, dec, check_doc, timeout=30, note="text nodes x xml:space x br gaps")
 
 
+def fam_empty_region():
+  """a region that no content is presented in: it may be in the snapshot only while its *computed* showBackground is always,
+  wherever that value comes from (own attribute, initial value of the document, an animation step in effect)"""
+  SB = lambda v: ["E", "ShowBackgroundType", v]
+  own = [None, "always", "whenActive"]
+  init = [None, "always", "whenActive"]
+  anim = [None, ("always", F(1), F(3)), ("whenActive", F(1), F(3)), ("whenActive", None, None)]
+  bg = [None, ["C", 255, 0, 0, 255]]
+  content = ["none", "other-time", "other-region-only"]
+  prod = Product([own, init, anim, bg, content])
+
+  def dec(i):
+    o, ini, an, b, ct = prod.decode(i)
+    r2 = {"id": "r2"}
+    st = {}
+    if o:
+      st["ShowBackground"] = SB(o)
+    if b:
+      st["BackgroundColor"] = b
+    if st:
+      r2["st"] = st
+    if an:
+      r2["an"] = [["ShowBackground", an[1], an[2], SB(an[0])]]
+    kids = [node("p", [node("span", [text("a")], id="s1")], id="p1", r="r1")]
+    if ct == "other-time":
+      kids.append(node("p", [node("span", [text("b")], id="s2")], id="p2", r="r2", b=F(5), e=F(6)))
+    spec = doc_spec(node("body", [node("div", kids, id="d")], id="b"), [{"id": "r1"}, r2])
+    if ini:
+      spec["init"] = [["ShowBackground", SB(ini)]]
+    return {"spec": spec, "times": [F(0), F(2), F(4), F(11, 2)], "key": f"F-empty-region#{i}"}
+  return Family("F-empty-region", prod.n, dec, check_doc, timeout=30,
+                note="a region without presented content x showBackground from own attribute / initial value / animation step")
+
+
 def fam_ws_ruby():
   """white-space collapsing inside ruby containers: text that collapses to nothing below rb / rt"""
   alpha = ["a", " ", " a", "a ", "\n"]
@@ -364,6 +398,7 @@ def plan(tier, seed):
     fams.append(Family(f.name, f.n, f.decode, check_doc, shrink=c01.shrink_doc, timeout=30, note=f.note))
   fams.append(fam_grid())
   fams.append(fam_ws_ruby())
+  fams.append(fam_empty_region())
   kinds = sorted(APPLICABLE)
   fams.append(Family("F-table", len(kinds), lambda i: {"kind": kinds[i]}, check_table, timeout=10, note="applicability table diff"))
   if tier == "quick":
